@@ -11,6 +11,16 @@ NOTE = ("Trusted base: the frozen effect / identity tables in kdverif (one reaso
         "the value-level behaviour of the property (see DESIGN.md section 4, 'N' lists).")
 
 CLAIMS = {
+    "C15": ("affine normal forms with end-point substitution and interval tables, read/write sets, hook propagation",
+            "Decides for every _scale_strength of the transform family and MagnitudeSampler.scale_strength: each written "
+            "attribute is affine in the factor (inside max/min clamps, int/float conversions), equals its constructed "
+            "original (og_* partner from the constructor) at factor 1 with clamps non-binding over the original's range, "
+            "and the identity point of the frozen table at factor 0; no value is computed from an attribute that scaling "
+            "writes (no compounding); og_* attributes are written in constructors only; every class owning scalable "
+            "members forwards scale_strength(<received factor>) to each of them; KDScheduledTransform computes the batch "
+            "index (sample_counter // batch_size) * num_workers + rank, evaluates the schedule there, increments the "
+            "counter by 1 afterwards, applies and reports the same strength, scales before applying. Sampled parameter "
+            "values and partial batches are not decided."),
     "C11": ("dependence sets, def-use pairing of own/partner loads and polynomial normal forms in KDMixWrapper.getitem_xclass",
             "Decides: all draws of getitem_xclass are on one generator variable, built in the call from exactly {self.seed, "
             "idx} when a seed is set (get_rng_from_global otherwise), no global-RNG draw; partner data and label are "
